@@ -279,7 +279,7 @@ def _run(ctx, t0):
                                'create_retry_after_fault',
                                'delete_after_failed_create',
                                'restart_after_fault'):
-        if cov['nontrivial_counters'].get(k, 0) == 0:
+        if cov['nontrivial_counters'].get(k, 0) == 0 and not violations:
             raise statex.HarnessError('vacuous run: counter %s is 0' % k)
     nontrivial += sum(cov['nontrivial_counters'][k] for k in NONTRIVIAL_SEQ)
     open_ = [c['depth_completed'] for c in cov['configs'].values()
@@ -296,7 +296,7 @@ def _run(ctx, t0):
     left = max(10.0, ctx.budget_s * 0.92 - (time.perf_counter() - t0))
     sw = boundx.sweep(chunks, ilv_worker, workers=ctx.workers, time_cap=left)
     runs = sw.counters.get('runs', 0)
-    if runs == 0 or sw.nontrivial == 0:
+    if (runs == 0 or sw.nontrivial == 0) and not sw.violations:
         raise statex.HarnessError('vacuous interleaving exploration')
     if sw.counters.get('explore_caps'):
         raise statex.HarnessError('per-case cap hit unexpectedly')
